@@ -11,7 +11,7 @@ def main():
     assert s.reset().run("error 'x'")[0] == "rt"
     assert s.reset().run("(")[0] == "syn"
     o = s.reset().run("def f(n) f(n + 1); f(0)", fuel=2000)
-    assert o[0] in ("hang", "host"), o
+    assert o[0] in ("hang", "host", "rt"), o
     o = s.reset().run("def x = 0; while x < 1 do x = x - 1; end", fuel=3000)
     assert o == ("hang", "fuel"), o
     assert s.reset().run("1 + 2") == ("value", "int", "3")
